@@ -297,5 +297,6 @@ func TestVerifC32(t *testing.T) {
 				x.Fail("not-linearizable", "no sequential order of the reference model explains: %s final unpaid=%v served=%v payment-requests=%d", desc, fin.unpaid, fin.transfer, fin.pays)
 			}
 			x.Outcome(fmt.Sprintf("unpaid=%v served=%v pays=%d", fin.unpaid, fin.transfer, fin.pays))
+			x.State(desc + fmt.Sprintf("|%v|%v|%d", fin.unpaid, fin.transfer, fin.pays))
 		})
 }
